@@ -16,7 +16,12 @@ class-level definition may sit inside a compound statement (nested too) built so
 try/except with the handler taken (missing accelerator module, raise, NameError; one or several handlers, ``as``, bare,
 tuple), the optional-accelerator idiom (same name imported in the try body and defined in the handler), try/else/finally,
 ``except*``, if/elif/else on conditions only the interpreter evaluates, match/case (literal, sequence, mapping, class,
-or-patterns, guards, captures), with, for/while with else and break; the other blocks hold definitions that never run.
+or-patterns, guards, captures), with, for/while with else and break; the other blocks hold definitions that never run;
+default values of every kind (sentinels ``object()``, instances with / without ``__repr__``, partial objects, enum members,
+functions / classes / builtins / modules / lambdas, containers of such objects, nan / inf, negative and computed numbers, bytes,
+Ellipsis, strings with quotes and newlines, very long literals, module-level names spelled like parameters) also in
+``__init__``; docstrings of every layout CPython stores unchanged (quote styles, raw, joined, summary on or below the opening
+line, first line deeper / shallower than the following, column zero, tabs, blank first / last lines, empty).
 Oracle: each package (unique name) is loaded statically and with ``force_inspection=True`` in
 this child; normalised skeletons are compared, allowed differences are removed *by rule*
 (dunder names the source does not assign, instance attributes, attribute docstrings, line
@@ -69,9 +74,21 @@ REQUIRED_COUNTERS = ["packages_compared", "members_compared", "functions_compare
                      "wildcard_name_also_bound_locally", "class_namespaces_vs_cpython", "defs_in_try_handler", "defs_in_trystar_handler",
                      "defs_in_match_case", "defs_in_if_body", "defs_in_if_orelse", "defs_in_try_body", "defs_in_try_orelse",
                      "defs_in_try_finalbody", "defs_in_with_body", "defs_in_for_body", "defs_in_for_orelse", "defs_in_while_body",
-                     "defs_in_while_orelse", "fallback_idiom_defs", "non_taken_branch_names_excluded"]
+                     "defs_in_while_orelse", "fallback_idiom_defs", "non_taken_branch_names_excluded",
+                     "defaults_compared", "default_repr_has_address", "default_is_container_with_address_in_repr", "default_has_dunder_name",
+                     "default_is_partial", "default_is_enum_member", "default_is_nan_or_inf", "default_repr_is_long", "default_has_own_repr",
+                     "docstrings_vs_cpython", "doc_multiline", "doc_summary_below_opening_quotes",
+                     "doc_first_line_deeper_than_a_following_one", "doc_first_line_shallower_than_following_ones", "doc_with_tabs",
+                     "doc_trailing_blank", "doc_blank_first_lines", "doc_empty_or_blank"]
 EXHAUSTIVE = {"quick": False, "thorough": False}
 ASSUMPTIONS = ["generated code has no import-time side effects; packages get unique names and are purged from sys.modules",
+               "default values: the skeleton is name / kind / required-ness of each parameter; required-ness is judged against "
+               "inspect.signature of the imported object, the TEXT of a default is not compared (source text for the static agent, "
+               "repr or __name__ of the object for the dynamic one)",
+               "docstrings: compared between the agents exactly, and against inspect.getdoc of the object's own __doc__ modulo trailing "
+               "white space, an empty docstring counting as none",
+               "the dynamic loader gets the interpreter's sys.path after the package root as search paths (the inspector imports with "
+               "sys.path replaced by the search paths)",
                "branches of compound statements: the module CPython executed is the ground truth. A name written only in blocks that "
                "did not run (absent from the real namespace, every binding statement inside a compound statement; also when it arrives "
                "through a wildcard import of such a module) may appear in the static tree and is not judged; every name CPython bound "
@@ -146,6 +163,64 @@ def gen_ann(rng: random.Random, sc: Scope) -> str:
     return '"' + txt + '"' if rng.random() < 0.25 else txt
 
 
+# Default values CPython can evaluate anywhere (no name of the module needed). What counts for the skeleton is whether a
+# parameter HAS a default; its text may differ between the agents (source text vs repr of the object).
+LITERAL_DEFAULTS = [
+    "0", "'s'", "None", "1.5", "(1, 2)", "True", "[]", "{}", "set()", "frozenset({1})", "{'k': [1, (2, 3)]}", "range(3)",
+    # negative and other unary / computed numbers
+    "-1", "-2.5", "-1j", "+3", "~0", "1 + 2", "not 0", "1 if True else 2", "[x for x in range(3)]", "2 ** 70",
+    # special floats (1e309 is the literal spelling of inf)
+    "float('nan')", "float('inf')", "-float('inf')", "1e309", "-1e309", "-0.0",
+    # bytes, Ellipsis, singletons
+    "b'bytes'", "b'\\x00\\xff'", "bytearray(b'x')", "...", "Ellipsis", "NotImplemented", "__name__",
+    # strings with quotes, newlines, escapes, prefixes, implicit concatenation, nothing at all
+    '"it\'s"', "'say \"hi\"'", "'line\\nbreak'", "\'\'\'triple\'\'\'", "r'raw\\n'", "'a' 'b'", "''", "'\\u00e9\\u2603'", "'None'",
+    "f'{1}'", "' at 0x7f'",
+    # very long literals
+    repr("x" * 300), "[" + ", ".join(map(str, range(120))) + "]", str(10 ** 60),
+    # objects whose repr carries a memory address: sentinels, lambdas, containers holding them
+    "object()", "[object()]", "{'k': object()}", "(object(), 1)", "lambda: 0", "lambda x, y=1: x", "[lambda: 0]",
+    # functions, classes, builtins, methods as values
+    "len", "print", "int", "type", "str.upper", "''.join", "[].append", "dict.fromkeys",
+]
+
+
+def gen_default(rng: random.Random, sc: Scope) -> str:
+    """A default value: literal of any shape, an object defined or imported by the module, or a name visible at this place."""
+    pools = [LITERAL_DEFAULTS, LITERAL_DEFAULTS]
+    if sc.defaults:
+        pools.append(sc.defaults)
+    objs = sc.ctx.get("objects")
+    if objs:
+        pools += [objs, objs]
+    return rng.choice(rng.choice(pools))
+
+
+def gen_prelude(rng: random.Random, tag: str) -> tuple[str, list[str]]:
+    """Module-level objects made to be default values: (source, expressions usable as defaults after it).
+
+    Sentinels, instances of classes without / with a ``__repr__`` (of several flavours), a ``functools.partial``, enum members
+    and special floats of the standard library, modules, and module-level names spelled like parameters (``p0``), so that a
+    default may read ``p1=p0``.
+    """
+    t, cls = tag.strip("_"), tag.strip("_").capitalize()
+    shown = rng.choice(['"<shown>"', '"Shown()"', '""', '"<Shown object at 0x7f00>"', '"first\\nsecond"', '"None"'])
+    src = (f"import functools as _ft\nimport math as _math\nimport re as _re\nfrom http import HTTPStatus as _Status\n"
+           f"_{t}_MISSING = object()\n"
+           f'class _{cls}Plain:\n    """Instances print with their address."""\n'
+           f'class _{cls}Shown:\n    """Instances print as the class says."""\n    def __repr__(self):\n        return {shown}\n'
+           f"_{t}_plain = _{cls}Plain()\n_{t}_shown = _{cls}Shown()\n")
+    exprs = [f"_{t}_MISSING", f"_{t}_MISSING", f"_{t}_plain", f"_{t}_shown", f"_{cls}Plain()", f"_{cls}Shown()", f"_{cls}Plain", f"[_{t}_MISSING]",
+             f"(_{t}_plain, 1)", f"{{'k': _{t}_MISSING}}", f"{{_{t}_MISSING}}", f"[_{t}_shown, _{t}_plain]",
+             "_ft.partial(int, base=2)", f"_ft.partial(_{cls}Plain)", "_ft.partial(print, end='')", "_ft.reduce", "_ft", "_math",
+             "_math.inf", "-_math.inf", "_math.nan", "_math.pi", "_re.IGNORECASE", "_re.I | _re.M", "_Status.OK", "_Status", "_re.compile('a')"]
+    for i in rng.sample(range(4), rng.choice([0, 1, 2])):
+        # module-level names spelled like parameters: `def f(p0, p1=p0)` reads the module's p0 when the def statement runs
+        src += f"p{i} = {rng.choice(['7', repr('module level'), f'_{t}_MISSING', 'None'])}\n"
+        exprs += [f"p{i}"] * 3
+    return src, exprs
+
+
 def rand_params(rng: random.Random, sc: Scope, first: str | None = None) -> str:
     """Parameter list and return annotation: ``(p0, /, *p1: "X", p2=0) -> T`` without the ``def name`` part."""
     n = rng.randint(0, 4)
@@ -176,9 +251,9 @@ def rand_params(rng: random.Random, sc: Scope, first: str | None = None) -> str:
         if annotated and rng.random() < 0.6:
             txt += ": " + gen_ann(rng, sc)
             if dfl[i]:
-                txt += " = " + rng.choice(["0", "'s'", "None", "1.5", *sc.defaults])
+                txt += " = " + gen_default(rng, sc)
         elif dfl[i]:
-            txt += "=" + rng.choice(["0", "'s'", "None", "(1, 2)", *sc.defaults])
+            txt += "=" + gen_default(rng, sc)
         parts.append(txt)
         if k == c02.PO and (i + 1 == len(kinds) or kinds[i + 1] != c02.PO):
             parts.append("/")
@@ -188,6 +263,38 @@ def rand_params(rng: random.Random, sc: Scope, first: str | None = None) -> str:
         parts.insert(0, first)  # before a leading positional-only group `self` is positional-only too
     ret = " -> " + gen_ann(rng, sc) if (annotated and rng.random() < 0.6) or rng.random() < 0.05 else ""
     return "(" + ", ".join(parts) + ")" + ret
+
+
+def doc_stmt(rng: random.Random, ind: str, text: str) -> str:  # noqa: PLR0911
+    """A docstring statement at indentation `ind`: every layout whose value CPython stores in ``__doc__`` unchanged."""
+    r = rng.random()
+    if r < 0.4:
+        return f'{ind}"""{text}"""\n'
+    shapes = [
+        f"{ind}'{text}'\n", f'{ind}"{text}"\n', f"{ind}\'\'\'{text}\'\'\'\n", f'{ind}u"""{text}"""\n',
+        f'{ind}r"""{text} Raw \\n stays."""\n', f'{ind}"{text}\\nSecond line by escape."\n', f'{ind}"{text}" " Joined."\n',
+        # summary on the opening line, body lines at block indentation, deeper, shallower, at column 0
+        f'{ind}"""{text}\n\n{ind}More text.\n{ind}"""\n',
+        f'{ind}"""{text}\n{ind}        deep\n{ind}    shallow\n{ind}"""\n',
+        f'{ind}"""{text}\ncolumn zero\n{ind}indented\n{ind}"""\n',
+        f'{ind}"""{text}\n{ind}Closing quotes on the text line."""\n',
+        # summary on the line after the opening quotes
+        f'{ind}"""\n{ind}{text}\n{ind}More text.\n{ind}"""\n',
+        f'{ind}"""\n{ind}{text}\n{ind}"""\n',
+        # first content line indented deeper than a following one / shallower than the following ones
+        f'{ind}"""\n{ind}      {text}\n{ind}more\n{ind}"""\n',
+        f'{ind}"""\n{ind}    {text}\n{ind}  two\n{ind}      six\n{ind}"""\n',
+        f'{ind}"""\n{ind}{text}\n{ind}    indented more\n{ind}  and less\n{ind}"""\n',
+        f'{ind}"""   {text}\n{ind}    Second.\n{ind}"""\n',
+        # blank first lines, trailing blank lines, trailing spaces, whitespace-only lines inside
+        f'{ind}"""\n\n\n{ind}{text}\n{ind}"""\n',
+        f'{ind}"""{text}\n\n\n{ind}"""\n', f'{ind}"""{text}   """\n', f'{ind}"""{text}\n{ind}   \n      \n{ind}Last.   \n\n"""\n',
+        # tabs
+        f'{ind}"""\n\t{text}\n\tTabbed too.\n"""\n', f'{ind}"""{text}\n{ind}\tTab after spaces.\n{ind}"""\n', f'{ind}"""\t{text}\t"""\n',
+        # nothing / blanks only / non-ASCII
+        f'{ind}""""""\n', f'{ind}"""   """\n', f'{ind}"""\n{ind}"""\n', f'{ind}"""{text} \u00e9\u2603 \u4e2d"""\n',
+    ]
+    return rng.choice(shapes)
 
 
 def gen_def(rng: random.Random, sc: Scope, ind: str, name: str, first: str | None, doc: str, deco: list[str] | None,
@@ -205,7 +312,7 @@ def gen_def(rng: random.Random, sc: Scope, ind: str, name: str, first: str | Non
             src += f"{ind}@{d}\n"
     src += f"{ind}{kw} {name}{tp}{rand_params(rng, sc, first)}:"
     if doc:
-        src += f'\n{ind}    """{doc}"""'
+        src += "\n" + doc_stmt(rng, ind + "    ", doc).rstrip("\n")
     return src + f"\n{ind}    return 1\n"
 
 
@@ -349,7 +456,7 @@ def gen_class(rng: random.Random, sc: Scope, name: str, bases: list[str], deco: 
     ind = indent + "    "
     src = f"{indent}class {name}" + (f"({', '.join(bases)})" if bases else "") + ":\n"
     if rng.random() < 0.6:
-        src += f'{ind}"""Class {name}."""\n'
+        src += doc_stmt(rng, ind, f"Class {name}.")
     # names of classes that are no module-level globals (this class when nested, its own nested class): a string
     # annotation naming them is a forward reference only a type checker can follow
     inner = name + "Inner" if depth == 0 and rng.random() < 0.4 else None
@@ -374,7 +481,7 @@ def gen_class(rng: random.Random, sc: Scope, name: str, bases: list[str], deco: 
             ret = " -> " + gen_ann(rng, msc) if rng.random() < 0.3 else ""
             # functools is imported by the modules that define a wraps decorator
             prop = "functools.cached_property" if any(d.endswith("_deco") for d in deco or ()) and rng.random() < 0.3 else "property"
-            chunk = f"{ind}@{prop}\n{ind}def {mname}(self){ret}:" + (f'\n{ind}    """{doc}"""' if doc else "") + f"\n{ind}    return 1\n"
+            chunk = f"{ind}@{prop}\n{ind}def {mname}(self){ret}:" + ("\n" + doc_stmt(rng, ind + "    ", doc).rstrip("\n") if doc else "") + f"\n{ind}    return 1\n"
         else:
             kind = "value"
             ann = ": " + gen_ann(rng, msc) if rng.random() < 0.25 else ""
@@ -383,7 +490,8 @@ def gen_class(rng: random.Random, sc: Scope, name: str, bases: list[str], deco: 
         if rng.random() < 0.002:
             src += f"{ind}_{mname.lstrip('_')}_u, _{mname.lstrip('_')}_v = 1, 2\n"  # unpacking assignment: binds two (private) class attributes
     if rng.random() < 0.4:
-        src += f"{ind}def __init__(self, a=0):\n{ind}    self.inst_{name.lower()} = a\n"
+        sig = "(self, a=0)" if rng.random() < 0.5 else rand_params(rng, msc, "self").split(" -> ")[0]
+        src += f"{ind}def __init__{sig}:\n{ind}    self.inst_{name.lower()} = 0\n"
     if inner and not inner_first:
         src += gen_class(rng, sc, inner, [], deco, ind, depth + 1, outer=(name,))
     return src
@@ -476,7 +584,7 @@ def gen_all(rng: random.Random, name: str, mod: Mod, names: list[str], wild: lis
 
 def gen_module(rng: random.Random, name: str, mod: Mod, prevs: list[Mod]) -> str:  # noqa: C901, PLR0912, PLR0915
     m = mod.tag
-    src = f'"""Module {m}."""\n' if rng.random() < 0.7 else ""
+    src = doc_stmt(rng, "", f"Module {m}.") if rng.random() < 0.7 else ""
     future = rng.random() < 0.3
     if future:
         src += "from __future__ import annotations\n"
@@ -544,6 +652,10 @@ def gen_module(rng: random.Random, name: str, mod: Mod, prevs: list[Mod]) -> str
         for modname, nm in rng.sample(cands, min(len(cands), rng.randint(0, 2))) or [rng.choice(GUARDED_EXTERNALS)]:
             src += f"    from {modname} import {nm} as {nm}_t\n"
             deferred += [f"{nm}_t"] * 2
+    objects: list[str] = []
+    if rng.random() < 0.6:
+        prelude, objects = gen_prelude(rng, m)
+        src += prelude
     head, src = src, ""
     deco = [d for st, d in IDENTITY_DECORATORS.items() if st in lines]
     if use_wraps:
@@ -562,7 +674,7 @@ def gen_module(rng: random.Random, name: str, mod: Mod, prevs: list[Mod]) -> str
         plan.append(("__version__", "value"))
     cap = lambda nm: nm.capitalize() if not nm.startswith("_") else "_" + nm[1:].capitalize()  # noqa: E731
     later = [cap(nm) for nm, kind in plan if kind == "class"]
-    ctx = {"pkg": name, "tag": m, "n": 0}
+    ctx = {"pkg": name, "tag": m, "n": 0, "objects": objects}
     for nm, kind in plan:
         sc = Scope(future, evaluable, deferred + later, defaults, ctx)
         if kind == "function":
@@ -610,7 +722,7 @@ def gen_package(rng: random.Random, name: str) -> dict[str, str]:
     for mi, mod in enumerate(mods):
         fname = f"{name}/{mod.path.replace('.', '/')}" + ("/__init__.py" if mod.is_pkg else ".py")
         files[fname] = gen_module(rng, name, mod, mods[:mi])
-    init = f'"""Package {name}."""\n'
+    init = doc_stmt(rng, "", f"Package {name}.")
     top_level = [mod for mod in mods if len(mod.parts) == 1]
     for mod in mods:
         stmts = [f"from {name}.{mod.path} import {nm}\n" for nm, kind in rng.sample(mod.exported, min(len(mod.exported), 2 if mod in top_level else 1))]
@@ -930,6 +1042,52 @@ def compare_external(rec, where: str, sm, dm, spath: str | None, dpath: str | No
     return None
 
 
+def compare_doc_cpython(rec, pyobj, sd: str | None, where: str):  # noqa: ANN001, ANN201, C901
+    """Third witness for a docstring: what ``inspect.getdoc`` makes of the ``__doc__`` CPython stored on the object itself
+    (never an inherited one). Trailing white space is not part of the comparison; an empty docstring equals none."""
+    if pyobj is None:
+        return None
+    if isinstance(pyobj, (property, functools.cached_property)):
+        raw = (pyobj.fget if isinstance(pyobj, property) else pyobj.func).__doc__
+    elif inspect.isclass(pyobj):
+        raw = vars(pyobj).get("__doc__")
+    else:
+        raw = getattr(pyobj, "__doc__", None)
+    if raw is not None and not isinstance(raw, str):
+        return None
+    rec.count("docstrings_vs_cpython")
+    if raw is not None:
+        lines = raw.expandtabs().split("\n")
+        body = [ln for ln in lines[1:] if ln.strip()]
+        if "\n" in raw:
+            rec.count("doc_multiline")
+        if not lines[0].strip() and body:
+            rec.count("doc_summary_below_opening_quotes")
+            first = len(body[0]) - len(body[0].lstrip())
+            rest = [len(ln) - len(ln.lstrip()) for ln in body[1:]]
+            if rest and first > min(rest):
+                rec.count("doc_first_line_deeper_than_a_following_one")
+            if rest and first < min(rest):
+                rec.count("doc_first_line_shallower_than_following_ones")
+        if lines[0].strip() and len({len(ln) - len(ln.lstrip()) for ln in body}) > 1:
+            rec.count("doc_body_lines_of_different_depth")
+        if "\t" in raw:
+            rec.count("doc_with_tabs")
+        if raw != raw.rstrip():
+            rec.count("doc_trailing_blank")
+        if len(lines) > 2 and not lines[0].strip() and not lines[1].strip():
+            rec.count("doc_blank_first_lines")
+        if not raw.strip():
+            rec.count("doc_empty_or_blank")
+        if any(ln and not ln[0].isspace() for ln in lines[1:]):
+            rec.count("doc_line_at_column_zero")
+    want = inspect.cleandoc(raw).rstrip() if raw is not None else None
+    have = sd.rstrip() if sd is not None else None
+    if (want or None) != (have or None):
+        return (f"{where}: static docstring differs from inspect.getdoc of the imported object", have, want, None, [])
+    return None
+
+
 def stale_chain(sroot, alias):  # noqa: ANN001, ANN201
     """Final path of an alias chain followed *by path through the members the tree holds now*, when that differs from the
     chain of cached target objects at some hop (a hop's cached target is no longer the member stored under its target
@@ -994,6 +1152,57 @@ def observe_annotations(rec, pyobj) -> None:  # noqa: ANN001
         rec.add_to_set("unevaluable_annotation_errors", type(exc).__name__)
 
 
+def observe_defaults(rec, sig) -> None:  # noqa: ANN001, C901, PLR0912
+    """Evidence of the kinds of default values reached, read off the objects CPython holds."""
+    import enum
+    import math
+
+    def has_address(obj, depth: int = 0) -> bool:  # noqa: ANN001
+        try:
+            return " at 0x" in repr(obj)
+        except Exception:  # noqa: BLE001
+            return False
+
+    for prm in sig.parameters.values():
+        d = prm.default
+        if d is prm.empty:
+            continue
+        rec.count("defaults_compared")
+        named = hasattr(d, "__name__")
+        if isinstance(d, functools.partial):
+            rec.count("default_is_partial")
+        if isinstance(d, enum.Enum):
+            rec.count("default_is_enum_member")
+        if isinstance(d, float) and (math.isnan(d) or math.isinf(d)):
+            rec.count("default_is_nan_or_inf")
+        if isinstance(d, (int, float, complex)) and not isinstance(d, bool) and d != d.__class__() and (d.real < 0 or d.imag < 0):
+            rec.count("default_is_negative_number")
+        if isinstance(d, (bytes, bytearray)):
+            rec.count("default_is_bytes")
+        if d is Ellipsis or d is NotImplemented:
+            rec.count("default_is_singleton_object")
+        if isinstance(d, str) and any(ch in d for ch in "'\"\n\\"):
+            rec.count("default_is_str_with_quotes_or_newlines")
+        if named:
+            rec.count("default_has_dunder_name")  # functions, classes, builtins, modules, lambdas
+            if inspect.ismodule(d):
+                rec.count("default_is_module")
+            if getattr(d, "__name__", "") == "<lambda>":
+                rec.count("default_is_lambda")
+        elif has_address(d):
+            if isinstance(d, (list, tuple, dict, set, frozenset)):
+                rec.count("default_is_container_with_address_in_repr")
+            else:
+                rec.count("default_repr_has_address")  # sentinels, instances without __repr__, partial objects
+        elif type(d).__module__ not in ("builtins", "functools", "re", "http", "enum", "math") and "__repr__" in vars(type(d)):
+            rec.count("default_has_own_repr")
+        try:
+            if len(repr(d)) > 200:
+                rec.count("default_repr_is_long")
+        except Exception:  # noqa: BLE001
+            pass
+
+
 def compare_params(rec, sfunc, dfunc, pyobj, label: str):  # noqa: ANN001, ANN201, C901, PLR0911
     """Returns (what, observed, expected, extra) or None. The CPython leg is the arbiter of 'as CPython binds them'."""
     sp = [(p.name, p.kind.value if p.kind else None, p.required) for p in sfunc.parameters]
@@ -1009,6 +1218,7 @@ def compare_params(rec, sfunc, dfunc, pyobj, label: str):  # noqa: ANN001, ANN20
             cp = [(p.name, KIND_TXT[c02.INSPECT_KIND[p.kind]], p.default is p.empty and p.kind not in (p.VAR_POSITIONAL, p.VAR_KEYWORD))
                   for p in sig.parameters.values()]
             rec.count("signatures_vs_cpython")
+            observe_defaults(rec, sig)
         except (TypeError, ValueError):
             cp = None
     if sp != dp:
@@ -1173,12 +1383,17 @@ def walk_compare(rec, files: dict, pkgname: str, sroot, droot):  # noqa: ANN001,
                 continue
             if sfin.kind is not dfin.kind:
                 return (f"{s.path}.{n}: kinds differ", dfin.kind.value, sfin.kind.value, None, [])
-            if sfin.is_function or sfin.is_class or sfin.is_module:
+            is_prop = sfin.is_attribute and "property" in sfin.labels and "property" in dfin.labels
+            if sfin.is_function or sfin.is_class or sfin.is_module or is_prop:
                 rec.count("docstrings_compared")
                 sd = sfin.docstring.value if sfin.docstring else None
                 dd = dfin.docstring.value if dfin.docstring else None
                 if sd != dd:
                     return (f"{s.path}.{n}: docstrings differ", dd, sd, None, [])
+                res = compare_doc_cpython(rec, sys.modules.get(sfin.path) if sfin.is_module else resolve_py(pkgname, sfin.path), sd,
+                                          f"{s.path}.{n}")
+                if res:
+                    return res
             if sfin.is_function:
                 pyobj = resolve_py(pkgname, sfin.path)
                 res = compare_params(rec, sfin, dfin, pyobj, sfin.path)
@@ -1215,6 +1430,9 @@ def walk_compare(rec, files: dict, pkgname: str, sroot, droot):  # noqa: ANN001,
     rec.count("docstrings_compared")
     if sdoc != ddoc:
         return (f"module docstring of {sroot.path} differs", ddoc, sdoc, None, [])
+    res = compare_doc_cpython(rec, sys.modules.get(sroot.path), sdoc, sroot.path)
+    if res:
+        return res
     return deferred
 
 
@@ -1246,7 +1464,9 @@ def run_case(rec, files: dict, pkgname: str, nontrivial: bool) -> None:  # noqa:
                 sl = griffe.GriffeLoader(search_paths=[root], allow_inspection=False)
                 spkg = sl.load(pkgname)
                 sl.resolve_aliases(implicit=True, external=False)
-                dl = griffe.GriffeLoader(search_paths=[root], allow_inspection=True, force_inspection=True)
+                # the inspector imports with sys.path *replaced* by the search paths: the interpreter's own path must be among
+                # them, or a generated module could only import standard-library modules this process happens to have loaded
+                dl = griffe.GriffeLoader(search_paths=[root, *sys.path], allow_inspection=True, force_inspection=True)
                 dpkg = dl.load(pkgname)
                 dl.resolve_aliases(implicit=True, external=False)
                 rec.count("packages_compared")
